@@ -369,9 +369,64 @@ def _curve_pair(rng, fam):
         raise ValueError(fam)
 
 
+def address_reuse(ctx, rng, rounds, cls="cross_curve.address_reuse"):
+    """Curve objects come and go while a long-lived one stays: a curve equal to the long-lived one is created right after a
+    DIFFERENT curve has been freed (CPython hands the freed address to the next object of the same size).  Anything remembered
+    about 'the curve at that address' is then wrong."""
+    import gc
+    from vf.ref import ec, nt
+    for _ in range(rounds):
+        bits = rng.choice((24, 130, 256))
+        p = nt.random_prime(bits, rng)
+        while True:
+            cA = ec.Curve(p, rng.randrange(p), rng.randrange(1, p))
+            if cA.nonsingular():
+                break
+        PA = _rand_point(cA, rng)
+        fA = lib.CurveFp(cA.p, cA.a, cA.b)
+        A = lib.mk_jac(fA, PA, rng.randrange(2, p))
+        L = Point(fA, PA[0], PA[1])
+        wit = dict(E=cA.key(), P=PA)
+        for i in range(12):
+            # a different curve, compared with the long-lived one, then dropped
+            while True:
+                cB = ec.Curve(p, (cA.a + 1 + i) % p, rng.randrange(1, p))
+                if cB.nonsingular():
+                    break
+            PB = _rand_point(cB, rng)
+            fB = lib.CurveFp(cB.p, cB.a, cB.b)
+            B = lib.mk_jac(fB, PB, rng.randrange(2, p))
+            try:
+                r = (A == B, fA == fB, L == Point(fB, PB[0], PB[1]))
+            except Exception as e:
+                r = "raised %s" % type(e).__name__
+            ctx.check(r == (False, False, False), "points_of_different_curves_compare_equal", "transient different curve %r vs %r: == gives %r" % (cB.key(), cA.key(), r), wit)
+            try:
+                A + B
+                ctx.violation("sum_of_points_on_different_curves_returned", "PointJacobi + PointJacobi on different curves %r / %r returned a value" % (cA.key(), cB.key()), wit)
+            except (ValueError, AssertionError):
+                pass
+            except Exception as e:
+                ctx.violation("sum_of_points_on_different_curves_returned", "PointJacobi + PointJacobi on different curves raised %s" % type(e).__name__, wit)
+            del B, fB
+            gc.collect()
+            # an equal curve, freshly made (likely at the address just freed)
+            f2 = lib.CurveFp(cA.p, cA.a, cA.b)
+            A2 = lib.mk_jac(f2, PA, rng.randrange(2, p))
+            ctx.case(cls, key="%d|%d" % (bits, i), nontrivial=True)
+            try:
+                got = (A == A2, A != A2, fA == f2, L == Point(f2, PA[0], PA[1]), judge_point(A + A2, cA.dbl(PA), p), judge_point(L + Point(f2, PA[0], PA[1]), cA.dbl(PA), p))
+            except Exception as e:
+                got = "raised %s: %s" % (type(e).__name__, e)
+            ctx.check(got == (True, False, True, True, None, None), "equal_curve_objects_treated_as_different", "a fresh curve object equal to a long-lived one (made after a different curve was freed): "
+                      "(P == P', P != P', curve == curve', legacy ==, P + P', legacy +) = %r on %r" % (got, cA.key()), wit)
+            del A2, f2
+
+
 def cross_curve(ctx, rng, rounds, cls="cross_curve"):
     """Operations on points of two different but related curves, interleaved: every result is the one its own curve gives, and
     objects of different curves never compare equal."""
+    address_reuse(ctx, rng, max(2, rounds // 10))
     for _ in range(rounds):
         fam = rng.choice(("diff_field", "shared_point", "hash_alias", "hash_alias"))
         c1, c2, P1, P2 = _curve_pair(rng, fam)
